@@ -12,6 +12,11 @@ def one(sid):
     tmp = tempfile.mkdtemp(prefix="spdxseedt.")
     try:
         subprocess.run(f"rsync -a --exclude .git /repo/ {tmp}/repo/", shell=True, check=True)
+        if meta.get("base_patch"):
+            # a seed made on top of a behaviour-preserving refactoring: the base goes on first
+            rb = subprocess.run(f"patch -p1 -s --no-backup-if-mismatch -i {d}/{meta['base_patch']}", shell=True, cwd=f"{tmp}/repo", capture_output=True, text=True)
+            if rb.returncode != 0:
+                return sid, target, None, ["base patch does not apply"]
         r = subprocess.run(f"patch -p1 -s --no-backup-if-mismatch -i {d}/patch.diff", shell=True, cwd=f"{tmp}/repo", capture_output=True, text=True)
         if r.returncode != 0:
             return sid, target, None, ["patch does not apply"]
